@@ -7,6 +7,7 @@ import traceback
 
 from . import facts as factsmod
 from .model import Program
+from .flatten import flatten_program
 from .report import Ctx
 
 QUICK_CONFIGS = ["default"]
@@ -47,7 +48,7 @@ def main(argv=None):
                 meta = {"config": cfg, "bodies": len(fj["fns"]), "from_file": a.facts}
             else:
                 fj, meta = factsmod.extract(cfg, repo=a.repo)
-            P = Program(fj)
+            P = flatten_program(fj)
             P.repo = a.repo or factsmod.REPO
             meta["lib_functions"] = len(P.lib_fns())
             ctx.configs.append(meta)
